@@ -283,13 +283,23 @@ def resampling (dom ran : List (Axis K)) (v : List Nat → V) : List V :=
 def deformedPoints (axes : List (Axis K)) (disp : List (List K)) : List (List K) :=
   List.zipWith (List.zipWith (· + ·)) (gridPoints axes) (columns disp)
 
-/-- `linear_deform(template, displacement, interp)` flat in C order: the template's per-axis
-interpolant at every displaced grid point.  (The code passes `points.T`, a `(d, N)` point
-array; that this convention evaluates the columns of `points.T`, i.e. the rows of `points`,
-one by one is `call_convention_invariant` on the model side and the stream `interp/array` on
-the code side; the transposition itself is NumPy's.) -/
+/-- `points.T` for an `N × d` point list: row `j` holds coordinate `j` of every point. -/
+def transposePts {K : Type} [OfNat K 0] : Nat → List (List K) → List (List K)
+  | 0, _ => []
+  | d + 1, pts => pts.map (fun p => p.headD 0) :: transposePts d (pts.map List.tail)
+
+/-- `per_axis_interpolator(...)` called with a `(d, N)` point array (dispatch as in
+`perAxisInterpolator`). -/
+def perAxisInterpolatorArray (axes : List (Axis K)) (v : List Nat → V) (rows : List (List K)) :
+    List V :=
+  if allNearest axes then nearestArray axes v rows else perAxisArray axes v rows
+
+/-- `linear_deform(template, displacement, interp)` flat in C order:
+`per_axis_interpolator(template, coord_vectors, interp)(points.T)` with the displaced points —
+the `(d, N)` point-array convention of the interpolator on the transposed point list (the
+final `reshape(space.shape)` does not change the flat C order). -/
 def linearDeform (axes : List (Axis K)) (v : List Nat → V) (disp : List (List K)) : List V :=
-  (deformedPoints axes disp).map (perAxisInterpolator axes v)
+  perAxisInterpolatorArray axes v (transposePts axes.length (deformedPoints axes disp))
 
 end Grid
 
